@@ -12,6 +12,8 @@ import (
 	"flag"
 	"fmt"
 	"math"
+	"net/http"
+	"net/http/httptest"
 	"os"
 	"path"
 	"strconv"
@@ -19,7 +21,9 @@ import (
 	"time"
 
 	"github.com/pingcap/kvproto/pkg/pdpb"
+	"github.com/tikv/pd/server/api"
 	"github.com/tikv/pd/server/core"
+	"github.com/tikv/pd/server/tso"
 	"go.etcd.io/etcd/clientv3"
 
 	"pdverif/internal/coqfmt"
@@ -103,6 +107,7 @@ type op struct {
 	SP  uint64 `json:",omitempty"`
 	Exp int64  `json:",omitempty"` // seed: absolute expiry; ExpRel != 0: relative to the wall clock at execution
 	Rel int64  `json:",omitempty"`
+	Wait int   `json:",omitempty"` // milliseconds of real time to let pass before the op (thorough tier: real expiry)
 	Now int64  `json:",omitempty"` // filled in by the run
 	Lo  int64  `json:",omitempty"`
 	Hi  int64  `json:",omitempty"`
@@ -148,6 +153,17 @@ type world struct {
 	thr []*thread
 	ctx context.Context
 	R   *res.Result
+	api http.Handler // the real REST router (server/api)
+
+	ambiguous bool // a failing service call straddled a second boundary of the TSO clock: its `now` is unknown
+}
+
+func (w *world) tsoNow() time.Time {
+	ts, err := w.x.S.GetTSOAllocatorManager().HandleTSORequest(tso.GlobalDCLocation, 1)
+	if err != nil {
+		panic(err)
+	}
+	return time.Unix(ts.GetPhysical()/1000, ts.GetPhysical()%1000*int64(time.Millisecond))
 }
 
 const gcKey = "gc/safe_point"
@@ -307,12 +323,24 @@ func (w *world) exec(o *op) string {
 		return "BResp " + coqfmt.ZU(r.GetSafePoint())
 	case "svc":
 		pre := w.all()
+		// the handler takes `now` from a TSO. Bracket the call with two TSOs of the same allocator: when they
+		// fall into the same second (enforced by not starting in the last 50 ms of a second) `now` is known
+		// exactly even if the call fails; otherwise it is recovered from the answer below.
+		t0 := w.tsoNow()
+		for t0.Nanosecond() > 950*int(time.Millisecond) {
+			time.Sleep(10 * time.Millisecond)
+			t0 = w.tsoNow()
+		}
 		o.Lo = time.Now().Unix()
 		r, err := w.x.S.UpdateServiceGCSafePoint(w.ctx, &pdpb.UpdateServiceGCSafePointRequest{Header: w.x.Header(),
 			ServiceId: []byte(o.ID), TTL: o.TTL, SafePoint: o.SP})
 		o.Hi = time.Now().Unix()
-		o.Now = o.Lo
+		t1 := w.tsoNow()
+		o.Now = t0.Unix()
 		if err != nil || r.GetHeader().GetError() != nil {
+			if t0.Unix() != t1.Unix() {
+				w.ambiguous = true
+			}
 			return "BErr"
 		}
 		// the handler took `now` from a TSO; recover it from the TTL it answered with
@@ -328,11 +356,16 @@ func (w *world) exec(o *op) string {
 		}
 		return fmt.Sprintf("BMin %s %s %s", textOf(mid), coqfmt.Z(r.GetTTL()), coqfmt.ZU(r.GetMinSafePoint()))
 	case "apidel":
-		// what (*serviceGCSafepointHandler).Delete does with the path variable
-		if err := w.st.RemoveServiceGCSafePoint(o.ID); err != nil {
+		// DELETE /pd/api/v1/gc/safepoint/{service_id} through the real router and handler
+		rec := httptest.NewRecorder()
+		w.api.ServeHTTP(rec, httptest.NewRequest(http.MethodDelete, "/pd/api/v1/gc/safepoint/"+o.ID, nil))
+		switch rec.Code {
+		case http.StatusOK:
+			return "BUnit"
+		case http.StatusInternalServerError:
 			return "BErr"
 		}
-		return "BUnit"
+		return fmt.Sprintf("BBad (* http %d *)", rec.Code)
 	case "seed":
 		if o.Rel != 0 {
 			o.Exp = time.Now().Unix() + o.Rel
@@ -361,6 +394,9 @@ func (c caseRec) coq() string {
 }
 
 func (w *world) step(c *caseRec, o op) string {
+	if o.Wait > 0 {
+		time.Sleep(time.Duration(o.Wait) * time.Millisecond)
+	}
 	ob := w.exec(&o)
 	c.Ops = append(c.Ops, o)
 	c.Obs = append(c.Obs, "("+ob+", "+w.view()+")")
@@ -437,7 +473,10 @@ func (w *world) svcRace() {
 		return w.x.S.UpdateServiceGCSafePoint(w.ctx, &pdpb.UpdateServiceGCSafePointRequest{Header: w.x.Header(), ServiceId: []byte(id), TTL: ttl, SafePoint: sp})
 	}
 	if _, err := call("gc_worker", inf, 40); err != nil {
-		panic(err)
+		// the set-up itself is refused on this tree; the generated cases show why
+		w.R.Count("svc-lock:probe-set-up-refused")
+		w.R.Notes = append(w.R.Notes, "service lock probe skipped: registering gc_worker with an infinite TTL failed: "+err.Error())
+		return
 	}
 	done := make(chan error, 1)
 	go func() {
@@ -451,7 +490,9 @@ func (w *world) svcRace() {
 	select {
 	case <-w.b.Parked("sA"):
 	case err := <-done:
-		panic(fmt.Sprint("service update finished without saving: ", err))
+		w.R.Count("svc-lock:probe-request-did-not-save")
+		w.R.Notes = append(w.R.Notes, fmt.Sprint("service lock probe skipped: the probing registration finished without saving: ", err))
+		return
 	case <-time.After(60 * time.Second):
 		panic("service update neither parked nor finished")
 	}
@@ -534,6 +575,8 @@ func pickSP(r *rng.R) uint64 {
 	return spVals[r.Intn(len(spVals))]
 }
 
+var tsoClock func() int64 = func() int64 { return time.Now().Unix() }
+
 func pickTTL(r *rng.R) int64 {
 	switch r.Pick(14, 10, 40, 16, 10, 10) {
 	case 0:
@@ -545,9 +588,9 @@ func pickTTL(r *rng.R) int64 {
 	case 3:
 		return math.MaxInt64
 	case 4:
-		return math.MaxInt64 - time.Now().Unix() - int64(r.Intn(3)) + 1 // around the saturation boundary, from above
+		return math.MaxInt64 - tsoClock() - int64(r.Intn(3)) + 1 // around the saturation boundary (MaxInt64 - now <= TTL)
 	default:
-		return math.MaxInt64 - time.Now().Unix() - 3600 - int64(r.Intn(1000)) // just below it
+		return math.MaxInt64 - tsoClock() - 3600 - int64(r.Intn(1000)) // just below it
 	}
 }
 
@@ -636,7 +679,12 @@ func (w *world) genCase(r *rng.R, kind int, maxOps int, lockedMode bool) caseRec
 			case 1:
 				w.step(&c, op{K: "svc", ID: pickID(r, odd), TTL: pickTTL(r), SP: pickSP(r)})
 			case 2:
-				w.step(&c, op{K: "apidel", ID: pickID(r, odd)})
+				// the router only lets a single clean path element through as {service_id}
+				id := pickID(r, 0)
+				if id == "a1/sub" {
+					id = "a1"
+				}
+				w.step(&c, op{K: "apidel", ID: id})
 			default:
 				w.step(&c, op{K: "get"})
 			}
@@ -690,6 +738,16 @@ func directed() [][]op {
 	}
 }
 
+// thorough tier only: entries expire by the passage of real time (TTL of one second, 2.5 s waits)
+func directedThorough() [][]op {
+	inf := int64(math.MaxInt64)
+	return [][]op{
+		{{K: "svc", ID: "gc_worker", TTL: inf, SP: 30}, {K: "svc", ID: "a1", TTL: 1, SP: 40}, {K: "svc", ID: "b2", TTL: 1000, SP: 50},
+			{K: "svc", ID: "h4", TTL: 1000, SP: 35, Wait: 2500}, {K: "svc", ID: "a1", TTL: 1, SP: 45}, {K: "svc", ID: "gc_worker", TTL: inf, SP: 60, Wait: 2500},
+			{K: "svc", ID: "z5", TTL: 1, SP: 70}, {K: "apidel", ID: "b2"}, {K: "svc", ID: "q9", TTL: 1000, SP: 36, Wait: 2500}},
+	}
+}
+
 func main() {
 	seed := flag.Uint64("seed", 1, "")
 	n := flag.Int("n", 200, "number of generated cases")
@@ -719,6 +777,12 @@ func main() {
 		"server; non-trivial = an acknowledged update overtook a parked one, or a storage fault, or a registration was refused below the " +
 		"minimum, or an expired entry was pruned, or a handler returned an error; distinct by sha256 of the canonical (ops,obs) text"
 	w := &world{x: x, st: st, b: b, ctx: context.Background(), R: R}
+	tsoClock = func() int64 { return w.tsoNow().Unix() }
+	w.api, _, err = api.NewHandler(w.ctx, x.S)
+	if err != nil {
+		fmt.Fprintln(os.Stderr, "api:", err)
+		os.Exit(2)
+	}
 	for t := 0; t < 3; t++ {
 		w.thr = append(w.thr, &thread{who: fmt.Sprintf("t%d", t)})
 	}
@@ -729,6 +793,13 @@ func main() {
 
 	var all []caseRec
 	emit := func(c caseRec, origin string) {
+		if w.ambiguous {
+			// (never seen so far) a failed service call straddled a second boundary: the case cannot be replayed
+			// by the model with a definite `now`; it is counted, not silently dropped
+			w.ambiguous = false
+			R.Count("case:dropped-clock-ambiguous")
+			return
+		}
 		overtaken, fault, refused, pruned, errs := false, false, false, false, false
 		pend := map[int]bool{}
 		prevN := 0
@@ -822,6 +893,11 @@ func main() {
 	}
 	if *replay == "" {
 		w.svcRace()
+		if *tier == "thorough" {
+			for _, d := range directedThorough() {
+				runFixed(d, "directed-real-expiry")
+			}
+		}
 	}
 	for _, f := range []string{*corpus, *replay} {
 		if f == "" {
